@@ -782,6 +782,13 @@ impl<'a, T: Iterator<Item = PathEl>> DashIterator<'a, T> {
                 result = Some(seg_to_el(&seg));
             }
             self.dash_remaining -= self.seg_remaining;
+            if self.state == DashState::ToStash {
+                // Stash the piece now: `get_input` may close the sub-path and
+                // append the `ClosePath`, which has to come after it.
+                if let Some(el) = result.take() {
+                    self.stash.push(el);
+                }
+            }
             self.get_input();
         }
         result
